@@ -55,7 +55,8 @@ def import_quantifier_stream(ctx, drv, n):
         for _ in range(rng.choice([2, 2, 3])):
             r = rng.random()
             if r < 0.7:
-                t = rng.choice(names)
+                metas = [t for t in names if t.startswith("meta/") and t != "meta/program"]
+                t = rng.choice(metas) if metas and rng.random() < 0.3 else rng.choice(names)
                 crits.append(t if rng.random() < 0.6 else t[: rng.randint(1, len(t))])
             elif r < 0.85:
                 crits.append(rng.choice(list(db["programs"])))
